@@ -88,8 +88,8 @@ def compile_cmd_of(err):
     return m.group(1).split() if m else ["false"]
 
 
-def hist_run(c, flavour, args, name=None):
-    return {"cfg": c, "flavour": flavour, "args": [str(a) for a in args], "name": name or cfg_name(c)}
+def hist_run(c, flavour, args, name=None, env=None):
+    return {"cfg": c, "flavour": flavour, "args": [str(a) for a in args], "name": name or cfg_name(c), "env": env}
 
 
 def run_hist_plan(report, prop, plan, accept=None):
@@ -109,7 +109,7 @@ def run_hist_plan(report, prop, plan, accept=None):
         if isinstance(b, BuildError):
             report.add_inconclusive("harness build failed for %s (%s): %s" % (r["name"], r["flavour"], b.diag[-1500:]))
             continue
-        cmds.append([b] + r["args"])
+        cmds.append(((["env"] + ["%s=%s" % kv for kv in sorted(r["env"].items())]) if r.get("env") else []) + [b] + r["args"])
         mode = r["args"][r["args"].index("--mode") + 1] if "--mode" in r["args"] else "random"
         metas.append({"engine": "hist", "src": "hist.cpp", "flavour": r["flavour"], "defines": r["cfg"], "args": r["args"],
                       "config": r["name"] + "@" + r["flavour"], "config_class": cfg_class(r["cfg"]), "mode": mode})
@@ -546,9 +546,10 @@ def run_simple_engines(report, prop, engine, jobs, accept=None):
             else:
                 report.add_inconclusive("harness build failed for %s: %s" % (j["name"], b.diag[-1500:]))
             continue
-        cmds.append([b] + [str(a) for a in j["args"]])
+        pre = (["env"] + ["%s=%s" % kv for kv in sorted(j["env"].items())]) if j.get("env") else []
+        cmds.append(pre + [b] + [str(a) for a in j["args"]])
         metas.append({"engine": engine, "config": j["name"], "config_class": j.get("config_class", j["name"]), "mode": engine,
-                      "replay_cmd": [b] + [str(a) for a in j["args"]]})
+                      "replay_cmd": pre + [b] + [str(a) for a in j["args"]]})
     results = run_many(cmds, timeout=3000)
     for res, meta in zip(results, metas):
         parse_engine_output(res, report, prop, meta, accept_props=accept or {prop})
@@ -617,7 +618,9 @@ def check_C12(tier, seed):
                "the expected outcome is computed in 64-bit arithmetic: beyond max_size() -> std::length_error and an unchanged container, otherwise exact size and contents; allocate(n>max_size()) is flagged by the allocator, "
                "ledger red zones + ASan catch writes past the block, capacity() must equal the ledger's n. uint8_t: EXHAUSTIVE over every size 0..max, every count 0..255 and every range length 0..300; "
                "wider types: boundary sampling {0,1,2,edge-1,edge,edge+1,2edge+1,type_max-1,type_max,type_max-size(+1),type_max+1+k,2(type_max+1)+3} with memory-free counting iterators up to 2^34; "
-               "both assert-enabled and NDEBUG builds (the header's range-length check exists only without NDEBUG); tuple = (config, op, size class, count class, outcome)")
+               "both assert-enabled and NDEBUG builds (the header's range-length check exists only without NDEBUG); tuple = (config, op, size class, count class, outcome); "
+               "wrap monitor: clang builds with -fsanitize=unsigned-integer-overflow,implicit-conversion restricted (ignorelist) to functions defined in small_vector.hpp, every UBSan report is "
+               "routed through __ubsan_on_report to the running operation (limits workloads and ordinary call histories): any wrap or truncation in the header's size arithmetic is a violation")
     jobs = []
     groups = (0, 1, 2, 3, 4)
     for gidx in groups:
@@ -627,6 +630,14 @@ def check_C12(tier, seed):
             for sh in range(nsh):
                 jobs.append({"src": "limits.cpp", "cc": "g++", "flags": flags, "defines": {"LIM_GROUP": gidx},
                              "args": ["--seed", seed, "--shard", sh, "--nshards", nsh], "name": "limits/g%d/%s" % (gidx, flav), "config_class": flav})
+    # wrap monitor (clang only): unsigned overflow / implicit truncation in the header's own arithmetic, attributed to the running op
+    WRAP_ENV = {"UBSAN_OPTIONS": "halt_on_error=0:print_stacktrace=0"}
+    for gidx in groups:
+        for flav, extra in (("wrap-rel", ["-DNDEBUG"]),) + ((("wrap-dbg", []),) if tier != "quick" else ()):
+            nsh = (4 if gidx == 0 else 1) if tier == "quick" else (12 if gidx == 0 else 2)
+            for sh in range(nsh):
+                jobs.append({"src": "limits.cpp", "cc": "clang++", "flags": svlib.FLAVOURS["clang-wrap"][1] + extra, "defines": {"LIM_GROUP": gidx}, "env": WRAP_ENV,
+                             "args": ["--seed", seed + 2, "--shard", sh, "--nshards", nsh if tier != "quick" or gidx != 0 else 8], "name": "limits/g%d/%s" % (gidx, flav), "config_class": flav})
     if tier != "quick":
         for gidx in groups:
             jobs.append({"src": "limits.cpp", "cc": "clang++", "flags": ["-std=c++20", "-O1", "-g1", "-DNDEBUG", "-fsanitize=address,undefined", "-fno-sanitize-recover=all", "-fno-sanitize=object-size"],
@@ -637,6 +648,13 @@ def check_C12(tier, seed):
                 jobs.append({"src": "limits.cpp", "cc": "g++", "flags": ["-std=c++17", "-O2", "-g1", "-DNDEBUG", "-fsanitize=address,undefined", "-fno-sanitize-recover=all"],
                              "defines": {"LIM_GROUP": gidx}, "args": ["--seed", seed + 100 * extra], "name": "limits/g%d/rel" % gidx, "config_class": "rel"})
     run_simple_engines(rp, "C12", "limits", jobs)
+    # the same wrap monitor under ordinary call histories (size_t configurations): any report inside the header is a C12 violation
+    plan = []
+    for k in (("int-std", "tnx-l000") if tier == "quick" else ("int-std", "tnx-l000", "tthrow-l011", "tmo-l111", "int-l111", "tco-l010")):
+        plan.append(hist_run(Q[k], "clang-wrap", ["--mode", "random", "--cases", 20000 if tier == "quick" else 200000, "--len", 60, "--seed", seed, "--monitors", "C12"], env=WRAP_ENV))
+        plan.append(hist_run(Q[k], "clang-wrap", ["--mode", "sweep", "--level", 0, "--monitors", "C12"], env=WRAP_ENV))
+    run_hist_plan(rp, "C12", plan)
+    rp.coverage["counters"]["wrap-monitored-processes"] = sum(1 for j in jobs if j.get("env")) + len(plan)
     floor(rp, "length_errors", 1000, "length_error outcomes observed")
     rp.exhaustive = True
     rp.extra["exhaustive_note"] = "exhaustive for the uint8_t configurations (every size, count 0..255, range length 0..300); boundary sampling for wider size types"
